@@ -1832,6 +1832,17 @@ func init() {
 							return "E"
 						}
 					}
+					// the annotation word handed over by value, or the last component just read
+					switch w := pr[1].(type) {
+					case *ssa.Parameter:
+						if isStringType(w.Type().Underlying()) {
+							return "E"
+						}
+					case *ssa.Extract, *ssa.Phi:
+						if isStringType(w.Type().Underlying()) {
+							return "E"
+						}
+					}
 				}
 				if isKindCall(pr[0]) {
 					if k, ok := constInt(pr[1]); ok && k == structKind {
@@ -1907,11 +1918,23 @@ func init() {
 				}
 				switch x := st.b.Instrs[len(st.b.Instrs)-1].(type) {
 				case *ssa.Return:
-					if len(x.Results) != 2 || !isNilConst(unspill(x.Results[1], st.b)) {
+					// (verdict, error), or with further results (the matched name): the verdict is the one boolean result
+					nr := len(x.Results)
+					if nr < 2 || !isNilConst(unspill(x.Results[nr-1], st.b)) {
+						continue
+					}
+					bi, nb := -1, 0
+					for ri := 0; ri < nr-1; ri++ {
+						if isBoolType(x.Results[ri].Type()) {
+							bi = ri
+							nb++
+						}
+					}
+					if nb != 1 {
 						continue
 					}
 					nRet++
-					got := eval(x.Results[0], st.env, 0)
+					got := eval(x.Results[bi], st.env, 0)
 					if got != triOf(want) {
 						bad = append(bad, fmt.Sprintf("%s: with name-equal=%v, unnamed=%v, kind-struct=%v the verdict is %s, expected %v", c.InstrPos(x), as["E"], as["N"], as["K"], got, want))
 					}
